@@ -142,6 +142,7 @@ impl Material {
 			"S1p" => SlateStateV4::Standard1,
 			"S2p" => SlateStateV4::Standard2,
 			"MIN" => SlateStateV4::Invoice1,
+			"I2p" => SlateStateV4::Invoice2,
 			_ => SlateStateV4::Standard3,
 		};
 		if !sh["off"].as_bool().unwrap_or(true) {
